@@ -16,27 +16,13 @@ TRUSTED_BASE = [
     "the model is hand-written Gallina; its tie to the code is the per-run correspondence check, which is differential testing, not proof",
 ]
 
-PROPS = {
-    "C18": dict(
-        n_quick=160, n_thorough=1500, audit=10, audit_maxlen=3000,
-        rule="every leaf count 0..n (n=160 quick, 1500 thorough) plus sampled larger counts; leaves random / near-equal / all-identical; "
-             "distinct = distinct leaf list; non-trivial = at least 2 leaves",
-        trusted=["SHA-256 compression is an abstract function `cmp` in the theorems; the executable instance is the Gallina SHA-256 in Base/Sha256.v",
-                 "the model represents `inner[32]`/`count:u32` as a list of optional nodes, least significant level first (a slot is Some exactly when that bit of count is set); "
-                 "lists of 2^32 or more leaves (128 GiB) are outside the model"],
-        assumes=["leaf lists shorter than 2^32"],
-    ),
-}
+import glob as _glob, importlib.util as _ilu, os as _os
 
-PROPS["C01"] = dict(
-    n_quick=400, n_thorough=6000, audit=8, audit_maxlen=4000,
-    rule="three streams: (i) structured values over the feature lattice (coinbase/plain/pegin/issuance/reissuance inputs x null/explicit/confidential "
-         "asset,value,nonce x the six witness fields x proof/dynafed(null/compact/full) headers x lengths around every varint boundary) serialised by the crate, "
-         "(ii) the repository's own hex vectors, (iii) 1-3 stacked byte-level mutations of (i) aimed at the canonicity rules (flag byte, high bits of u32s, "
-         "non-minimal varints, prefixes, truncation, extension) + targeted outpoint-flag inputs; distinct = distinct (type, bytes); non-trivial = the decoder accepted it",
-    trusted=["curve-point validity (Generator/PedersenCommitment/PublicKey::from_slice) is an oracle `pt_ok`: the harness reports, for every 33-byte window of the input, "
-             "whether libsecp256k1 accepts it; theorems hold for every oracle",
-             "range/surjection proof acceptance is the header/format rule transcribed from the vendored C sources (secp256k1-zkp-sys 0.10.1); proofs are stored and re-serialised verbatim",
-             "Vec<T> element caps MAX_VEC_SIZE/size_of::<T>() are parameters reported by the harness from std::mem::size_of (theorems hold for every value)"],
-    assumes=["values are compared through their re-encoding and a structural summary (flags, counts), not field by field"],
-)
+PROPS, TEXTS = {}, {}
+for _p in sorted(_glob.glob(_os.path.join(_os.path.dirname(_os.path.abspath(__file__)), "props", "C*.py"))):
+    _id = _os.path.basename(_p)[:-3]
+    _spec = _ilu.spec_from_file_location("props_" + _id, _p)
+    _m = _ilu.module_from_spec(_spec)
+    _spec.loader.exec_module(_m)
+    PROPS[_id] = _m.PROP
+    TEXTS[_id] = _m.TEXT
